@@ -8,7 +8,7 @@ import re
 from ..cfg import build_cfg, calls_in, node_calls
 from ..core import Ctx, property_info, rule
 from ..model import AnalysisError, ClassInfo, FuncInfo, const_str, walk_no_nested
-from ..q import A, stores, unparse
+from ..q import A, Dispatch, call_name_of, control_deps, flow_conditions, flows, names_from_calls, str_template, stores, unparse
 
 DT = "xsdata.models.datatype"
 DATES = "xsdata.utils.dates"
@@ -201,19 +201,29 @@ def _return_kind(ctx: Ctx, fi: FuncInfo, depth: int = 0) -> str:
         if a.annotation is not None:
             t = unparse(a.annotation).replace(" ", "")
             env[a.arg] = "int" if t in ("int", "int|None", "bool") else ("float" if t == "float" else "unknown")
-    # straight-line local assignments (flow-insensitive join)
-    for _ in range(2):
-        for st, tgt, val in stores(fi.node):
-            if isinstance(tgt, ast.Name) and val is not None:
-                if isinstance(st, ast.AugAssign):
-                    k = _join(env.get(tgt.id, "int"), _kind(ctx, fi, val, fi.module, env, depth + 1))
-                    if isinstance(st.op, ast.Div):
-                        k = "float"
-                else:
-                    k = _kind(ctx, fi, val, fi.module, env, depth + 1)
-                    if tgt.id in env and st is not None and not isinstance(st, ast.AnnAssign):
-                        k = _join(k, env[tgt.id]) if env[tgt.id] != "unknown" else k
-                env[tgt.id] = k
+    # local assignments: least fixpoint of the flow-insensitive join (bottom = int), so chains of temporaries resolve in any order
+    assigned = [(st, tgt, val) for st, tgt, val in stores(fi.node) if isinstance(tgt, ast.Name)]
+    for _, tgt, val in assigned:
+        if tgt.id not in env:
+            env[tgt.id] = "int" if val is not None else "unknown"
+    for _ in range(12):
+        changed = False
+        for st, tgt, val in assigned:
+            if val is None:
+                continue
+            k = _kind(ctx, fi, val, fi.module, env, depth + 1)
+            if isinstance(st, ast.AnnAssign) and unparse(st.annotation).replace(" ", "") in ("int", "bool", "int|None"):
+                k = "int"  # a declared int (e.g. the bound parameter of an inlined helper) is trusted like a parameter annotation
+            if isinstance(st, ast.AugAssign) and isinstance(st.op, ast.Div):
+                k = "float"
+            if isinstance(st, ast.Assign) and isinstance(st.targets[0], (ast.Tuple, ast.List)):
+                k = "unknown" if not isinstance(val, ast.Tuple) else k
+            new = _join(env[tgt.id], k)
+            if new != env[tgt.id]:
+                env[tgt.id] = new
+                changed = True
+        if not changed:
+            break
     k = "int"
     n = 0
     for r in walk_no_nested(fi.node):
@@ -232,6 +242,21 @@ def _fn_env(ctx: Ctx, fi: FuncInfo) -> dict[str, str]:
         if a.annotation is not None:
             t = unparse(a.annotation).replace(" ", "")
             env[a.arg] = "int" if t in ("int", "int|None", "bool") else ("float" if t == "float" else "unknown")
+    assigned = [(st, tgt, val) for st, tgt, val in stores(fi.node) if isinstance(tgt, ast.Name) and val is not None]
+    for _, tgt, _v in assigned:
+        env.setdefault(tgt.id, "int")
+    for _ in range(12):
+        changed = False
+        for st, tgt, val in assigned:
+            k = _kind(ctx, fi, val, fi.module, env, 1)
+            if isinstance(st, ast.AnnAssign) and unparse(st.annotation).replace(" ", "") in ("int", "bool", "int|None"):
+                k = "int"
+            new = _join(env[tgt.id], k)
+            if new != env[tgt.id]:
+                env[tgt.id] = new
+                changed = True
+        if not changed:
+            break
     return env
 
 
@@ -297,35 +322,44 @@ def directive_coverage(ctx: Ctx) -> None:
 
 
 def _scanner_table(ctx: Ctx) -> tuple[set[str], dict[str, int], bool]:
+    """DateTimeParser.parse_var partially evaluated per directive letter: handled letters, yields per letter, default raises."""
     pv = ctx.repo.func(f"{DATES}:DateTimeParser.parse_var")
+    params = [a.arg for a in pv.pos_params if a.arg != "self"]
+    if not params:
+        raise AnalysisError("C06: DateTimeParser.parse_var has no directive parameter")
+    subj = params[0]
+
+    def classify(t: ast.AST):
+        # `var in SIMPLE_TWO_DIGITS_FORMATS`: the module constant is looked through
+        if isinstance(t, ast.Compare) and len(t.ops) == 1 and isinstance(t.ops[0], (ast.In, ast.NotIn)) and isinstance(t.left, ast.Name) and t.left.id == subj:
+            c = t.comparators[0]
+            if isinstance(c, ast.Name) and c.id in pv.module.globals:
+                c = pv.module.globals[c.id]
+            if isinstance(c, (ast.Tuple, ast.List, ast.Set)) and all(const_str(e) is not None for e in c.elts):
+                return frozenset(repr(const_str(e)) for e in c.elts), isinstance(t.ops[0], ast.In)
+            if isinstance(c, ast.Constant) and isinstance(c.value, str):
+                return frozenset(repr(ch) for ch in c.value), isinstance(t.ops[0], ast.In)
+        from ..q import key_test
+
+        return key_test(t, lambda e: isinstance(e, ast.Name) and e.id == subj)
+
+    d = Dispatch(pv.node, classify=classify)
     handled: set[str] = set()
     yields: dict[str, int] = {}
-    else_raises = False
-    top = [n for n in pv.node.body if isinstance(n, ast.If)]
-    if not top:
-        raise AnalysisError("C06: DateTimeParser.parse_var has no if-chain")
-    chain = top[0]
-    while True:
-        t = chain.test
-        keys: list[str] = []
-        if isinstance(t, ast.Compare) and len(t.ops) == 1:
-            if isinstance(t.ops[0], ast.Eq) and const_str(t.comparators[0]) is not None:
-                keys = [const_str(t.comparators[0])]
-            elif isinstance(t.ops[0], ast.In):
-                c = t.comparators[0]
-                if isinstance(c, ast.Name) and c.id in pv.module.globals:
-                    c = pv.module.globals[c.id]
-                if isinstance(c, (ast.Tuple, ast.List, ast.Set)):
-                    keys = [const_str(e) for e in c.elts if const_str(e) is not None]
-        ny = sum(1 for st in chain.body for n in [st, *walk_no_nested(st)] if isinstance(n, ast.Yield))
-        for k in keys:
-            handled.add(k)
-            yields[k] = ny
-        if len(chain.orelse) == 1 and isinstance(chain.orelse[0], ast.If):
-            chain = chain.orelse[0]
+    for key in sorted(d.keys):
+        try:
+            letter = ast.literal_eval(key)
+        except Exception:  # noqa: BLE001
             continue
-        else_raises = any(isinstance(s, ast.Raise) for s in chain.orelse)
-        break
+        nodes = d.under(key)
+        ny = sum(1 for n in nodes if n.kind == "stmt" and n.ast is not None for x in [n.ast, *walk_no_nested(n.ast)] if isinstance(x, ast.Yield))
+        raises = any(n.kind == "stmt" and isinstance(n.ast, ast.Raise) for n in nodes)
+        if ny and not raises:
+            handled.add(letter)
+            yields[letter] = ny
+    default = d.under(None)
+    else_raises = any(n.kind == "stmt" and isinstance(n.ast, ast.Raise) for n in default) and not any(
+        isinstance(x, ast.Yield) for n in default if n.kind == "stmt" and n.ast is not None for x in [n.ast, *walk_no_nested(n.ast)])
     return handled, yields, else_raises
 
 
@@ -377,23 +411,18 @@ def duration_regex_groups(ctx: Ctx) -> None:
             targets = [unparse(t) for t in st.targets[0].elts]
     ctx.ob(f"xml_duration_re has {groups} groups = unpack arity", targets is not None and len(targets) == groups, at=fi, construct="groups arity",
            msg=f"regex has {groups} groups, unpacking has {len(targets) if targets else None} targets")
-    ctx.ob("first group is the sign", bool(targets) and targets[0] == "sign" and pattern.startswith("^([-]?)P"), at=fi, construct="sign group first",
-           msg="sign group is not the first group")
+    ret = [c for c in calls_in(fi.node) if call_name_of(c) == "TimeInterval"]
+    kw = {k.arg: k.value for c in ret for k in c.keywords if k.arg}
+    names_in_kw = {k: {n.id for n in ast.walk(v) if isinstance(n, ast.Name)} - {c.func.id for c in ast.walk(v) if isinstance(c, ast.Call) and isinstance(c.func, ast.Name)} for k, v in kw.items()}
+    ctx.ob("first group is the sign", bool(targets) and pattern.startswith("^([-]?)P") and targets[0] in names_in_kw.get("negative", set()), at=fi, construct="sign group first",
+           msg="sign group is not the first group / not what `negative` is computed from")
     ctx.ob("regex is anchored at both ends", pattern.startswith("^") and pattern.endswith("$"), at=fi, construct="anchors", msg="unanchored duration regex")
-    # the designator order of the regex is the order of the targets
+    # the designator order of the regex is the order of the unpacked groups, and each TimeInterval field is built from the group at its designator's position
     order = re.findall(r"\)([YMDHS])\)\?", pattern.replace("(?:T", ""))
     want = ["years", "months", "days", "hours", "minutes", "seconds"]
-    ctx.ob("designators Y M D H M S bind years..seconds in this order", order == ["Y", "M", "D", "H", "M", "S"] and bool(targets) and targets[1:7] == want, at=fi,
-           construct="designator order", msg=f"designator order {order} vs targets {targets}")
-    # each component converted with the matching constructor keyword
-    ret = [r for r in walk_no_nested(fi.node) if isinstance(r, ast.Return) and isinstance(r.value, ast.Call)]
-    ok = bool(ret)
-    for r in ret:
-        for k in r.value.keywords:
-            if k.arg in want:
-                txt = unparse(k.value)
-                ok = ok and (f"({k.arg})" in txt and f"if {k.arg} else None" in txt)
-    ctx.ob("TimeInterval fields are built from the group of the same name", ok, at=fi, construct="field/group agreement", msg="a component is taken from another group")
+    ok = order == ["Y", "M", "D", "H", "M", "S"] and bool(targets) and len(targets) >= 7 and all(names_in_kw.get(w) == {targets[i + 1]} for i, w in enumerate(want))
+    ctx.ob("designators Y M D H M S bind years..seconds in this order: each TimeInterval field is built from the group of its designator", ok, at=fi,
+           construct="designator order", msg=f"designator order {order}; fields built from {names_in_kw} with groups {targets}")
 
 
 # functions whose positional parameters are named after calendar components
@@ -403,7 +432,25 @@ def argument_name_agreement(ctx: Ctx) -> None:
     alias = {"franctional_second": "fractional_second"}
     comp = {"year", "month", "day", "hour", "minute", "second", "fractional_second", "offset", "microsecond"}
     n = 0
+    letter_comp = {"Y": "year", "m": "month", "d": "day", "H": "hour", "M": "minute", "S": "second", "f": "fractional_second", "z": "offset"}
+    fmts = _date_formats(ctx)
+    _, scanner_yields, _ = _scanner_table(ctx)
     for fi in list(ctx.repo.funcs_in(DT)) + list(ctx.repo.funcs_in(DATES)):
+        # a local unpacked from parse_date_args(value, DateFormat.X) carries the component of the directive at its position, whatever it is called
+        by_directive: dict[str, str] = {}
+        for st in walk_no_nested(fi.node):
+            if isinstance(st, ast.Assign) and isinstance(st.targets[0], (ast.Tuple, ast.List)) and isinstance(st.value, ast.Call) and call_name_of(st.value) == "parse_date_args" and len(st.value.args) == 2:
+                f2 = st.value.args[1]
+                fmt = fmts.get(f2.attr) if isinstance(f2, ast.Attribute) else None
+                if fmt is not None:
+                    comps: list[str] = []
+                    for letter in _directives(fmt):
+                        k = scanner_yields.get(letter, 1)
+                        comps += [letter_comp.get(letter, "?")] if k == 1 else ([letter_comp.get(letter, "?"), "fractional_second"] if letter == "S" and k == 2 else ["?"] * k)
+                    if len(comps) == len(st.targets[0].elts):
+                        for t2, cname in zip(st.targets[0].elts, comps):
+                            if isinstance(t2, ast.Name) and cname != "?":
+                                by_directive[t2.id] = cname if by_directive.get(t2.id, cname) == cname else "?"
         for c in calls_in(fi.node):
             params: list[str] | None = None
             f = c.func
@@ -426,7 +473,7 @@ def argument_name_agreement(ctx: Ctx) -> None:
             for i, a in enumerate(c.args):
                 name = None
                 if isinstance(a, ast.Name):
-                    name = a.id
+                    name = by_directive.get(a.id, a.id)
                 elif isinstance(a, ast.Attribute) and isinstance(a.value, ast.Name) and a.value.id in ("self", "obj"):
                     name = a.attr
                 if name in comp and i < len(params):
@@ -449,17 +496,12 @@ def range_tables(ctx: Ctx) -> None:
     vals = [e.value for e in md.elts] if isinstance(md, ast.List) else None
     ctx.ob("mdays = [0,31,28,31,30,31,30,31,31,30,31,30,31]", vals == [0, 31, 28, 31, 30, 31, 30, 31, 31, 30, 31, 30, 31], at=mod, node=md, construct="mdays", msg=f"month table is {vals}")
     ml = ctx.repo.func(f"{DATES}:monthlen")
-    rets = [r for r in walk_no_nested(ml.node) if isinstance(r, ast.Return)]
-    ok = False
-    if len(rets) == 1 and isinstance(rets[0].value, ast.BinOp) and isinstance(rets[0].value.op, ast.Add):
-        parts = [rets[0].value.left, rets[0].value.right]
-        sub = [x for x in parts if isinstance(x, ast.Subscript) and unparse(x.value) == "mdays"]
-        rest = [x for x in parts if x not in sub]
-        if len(sub) == 1 and len(rest) == 1:
-            cmp2 = [c for c in ast.walk(rest[0]) if isinstance(c, ast.Compare) and isinstance(c.ops[0], ast.Eq)
-                    and any(isinstance(k, ast.Constant) and k.value == 2 for k in [c.left, *c.comparators])]
-            leap = [c for c in ast.walk(rest[0]) if isinstance(c, ast.Call) and unparse(c.func).endswith("isleap")]
-            ok = bool(cmp2) and bool(leap) and isinstance(rest[0], ast.BoolOp) and isinstance(rest[0].op, ast.And)
+    body = list(walk_no_nested(ml.node))
+    sub = [x for x in body if isinstance(x, ast.Subscript) and unparse(x.value) == "mdays" and unparse(x.slice) == "month"]
+    feb = [c for c in body if isinstance(c, ast.Compare) and len(c.ops) == 1 and isinstance(c.ops[0], ast.Eq) and {unparse(c.left), unparse(c.comparators[0])} == {"month", "2"}]
+    leap = [c for c in body if isinstance(c, ast.Call) and call_name_of(c) == "isleap" and c.args and unparse(c.args[0]) == "year"]
+    other_cmp = [c for c in body if isinstance(c, ast.Compare) and c not in feb]
+    ok = bool(sub) and bool(feb) and bool(leap) and not other_cmp
     ctx.ob("monthlen adds the leap day to February only", ok, at=ml, construct="leap rule", msg="leap-day rule changed")
     found = 0
     for fn in ("validate_date", "validate_time"):
@@ -477,15 +519,15 @@ def range_tables(ctx: Ctx) -> None:
             hi = hi_node.value if isinstance(hi_node, ast.Constant) else unparse(hi_node)
             found += 1
             if var == "day":
-                ok = lo == 1 and hi == "max_days"
+                ok = lo == 1 and (hi in names_from_calls(fi.node, ("monthlen",)) or str(hi).replace(" ", "") == "monthlen(year,month)")
                 # and the failing side raises
             else:
                 ok = SPEC_RANGES.get(var) == (lo, hi)
             raises = [m for m, lab in g.succ[t.id] if lab == "false" and isinstance(g.nodes[m].ast, ast.Raise)]
-            ctx.ob(f"{fn}: {lo} <= {var} <= {hi} matches the specification and its failure raises", ok and bool(raises), at=fi, node=c,
+            ctx.ob(f"{fn}: {lo} <= {var} <= {'monthlen(year, month)' if var == 'day' else hi} matches the specification and its failure raises", ok and bool(raises), at=fi, node=c,
                    construct=f"range {var}", msg=f"range for {var} is {lo}..{hi}, specification says {SPEC_RANGES.get(var, (1, 'monthlen'))}")
         if fn == "validate_date":
-            ctx.ob("validate_date: max_days = monthlen(year, month)", any(unparse(v).replace(" ", "") == "monthlen(year,month)" for _, t2, v in stores(fi.node) if v is not None and unparse(t2) == "max_days"),
+            ctx.ob("validate_date: max_days = monthlen(year, month)", any(unparse(c).replace(" ", "") == "monthlen(year,month)" for c in calls_in(fi.node)),
                    at=fi, construct="max_days", msg="day upper bound not taken from monthlen(year, month)")
         else:
             h24 = [t for t in g.nodes if t.kind == "test" and isinstance(t.ast, ast.Compare) and isinstance(t.ast.ops[0], ast.Eq)
@@ -505,40 +547,72 @@ def range_tables(ctx: Ctx) -> None:
     # offsets: the minutes-per-hour constant agrees between the scanner and the formatter; sign handling is symmetric
     po = ctx.repo.func(f"{DATES}:DateTimeParser.parse_offset")
     fo = ctx.repo.func(f"{DATES}:format_offset")
-    mul = [b for b in ast.walk(po.node) if isinstance(b, ast.BinOp) and isinstance(b.op, ast.Mult) and any(
-        isinstance(x, ast.Constant) and x.value == 60 for x in (b.left, b.right)) and any("parse_digits" in unparse(x) for x in (b.left, b.right))]
-    dm = [c for c in calls_in(fo.node) if isinstance(c.func, ast.Name) and c.func.id == "divmod" and len(c.args) == 2
-          and isinstance(c.args[1], ast.Constant) and c.args[1].value == 60]
+    def _is60(x: ast.AST) -> bool:
+        return isinstance(x, ast.Constant) and x.value == 60
+
+    mul = [b for b in ast.walk(po.node) if (isinstance(b, ast.BinOp) and isinstance(b.op, ast.Mult) and (_is60(b.left) or _is60(b.right))) or (isinstance(b, ast.AugAssign) and isinstance(b.op, ast.Mult) and _is60(b.value))]
+    dm = [c for c in calls_in(fo.node) if isinstance(c.func, ast.Name) and c.func.id == "divmod" and len(c.args) == 2 and _is60(c.args[1])] + [
+        b for b in ast.walk(fo.node) if isinstance(b, ast.BinOp) and isinstance(b.op, ast.FloorDiv) and _is60(b.right)]
     ctx.ob("offset: scanner multiplies hours by 60 and the formatter divides by 60", bool(mul) and bool(dm), at=po, construct="offset units 60",
            msg="hours/minutes factor differs between parse_offset and format_offset")
-    sign_ifexp = [e for e in ast.walk(po.node) if isinstance(e, ast.IfExp) and "'-'" in unparse(e.test) and unparse(e.body) == "-1" and unparse(e.orelse) == "1"]
-    ctx.ob("parse_offset: '-' negates the whole offset, '+' keeps it", bool(sign_ifexp), at=po, construct="offset sign parse", msg="sign handling of the scanned offset changed")
+    ctrl = names_from_calls(po.node, ("peek",))
+    dpo = Dispatch(po.node, is_subject=lambda e: isinstance(e, ast.Name) and e.id in ctrl)
+
+    def _negations(nodes) -> list[ast.AST]:
+        out = []
+        for n in nodes:
+            if n.ast is None or n.kind == "test":
+                continue
+            for x in ast.walk(n.ast):
+                if isinstance(x, ast.UnaryOp) and isinstance(x.op, ast.USub) and not isinstance(x.operand, ast.Constant):
+                    out.append(x)
+                minus1 = lambda v: isinstance(v, ast.UnaryOp) and isinstance(v.op, ast.USub) and isinstance(v.operand, ast.Constant) and v.operand.value == 1  # noqa: E731
+                if isinstance(x, ast.AugAssign) and isinstance(x.op, ast.Mult) and minus1(x.value):
+                    out.append(x)
+                if isinstance(x, ast.BinOp) and isinstance(x.op, ast.Mult) and (minus1(x.left) or minus1(x.right)):
+                    out.append(x)
+        return out
+
+    ok = "'-'" in dpo.keys and bool(_negations(dpo.specific("'-'"))) and not _negations(dpo.under("'+'")) if "'+'" in dpo.keys else ("'-'" in dpo.keys and bool(_negations(dpo.specific("'-'"))) and not _negations(dpo.under(None)))
+    ctx.ob("parse_offset: '-' negates the whole offset, '+' keeps it", ok, at=po, construct="offset sign parse", msg="sign handling of the scanned offset changed")
     g = build_cfg(fo.node)
-    neg = [t for t in g.nodes if t.kind == "test" and unparse(t.ast).replace(" ", "") == "offset<0"]
-    st_minus = [g.node_of(st) for st, tgt, v in stores(fo.node) if unparse(tgt) == "sign" and const_str(v) == "-"]
-    st_plus = [g.node_of(st) for st, tgt, v in stores(fo.node) if unparse(tgt) == "sign" and const_str(v) == "+"]
-    ok = bool(neg) and bool(st_minus) and bool(st_plus) and all(g.only_if(n.id, neg[0].id, True) for n in st_minus) and all(g.only_if(n.id, neg[0].id, False) for n in st_plus)
-    ctx.ob("format_offset: '-' exactly for negative offsets", ok, at=fo, construct="offset sign format", msg="sign of the formatted offset changed")
-    zero = [t for t in g.nodes if t.kind == "test" and unparse(t.ast).replace(" ", "") == "offset==0"]
+    signs: dict[str, set[tuple[str, bool]]] = {}
+    for r in g.returns():
+        for leaf, chain in flows(fo, r, r.ast.value):
+            t = str_template(leaf)
+            if t and t[0][0] == "hole":
+                for sl, sc in flows(fo, g.nodes[chain[-1].id] if chain else r, t[0][1]):
+                    if isinstance(sl, ast.Constant) and sl.value in ("-", "+"):
+                        signs[sl.value] = flow_conditions(fo, r, [*chain, *sc])
+    neg = lambda conds, want: any((t == "_<0" and pol == want) or (t == "_>=0" and pol != want) for t, pol in conds)  # noqa: E731
+    ctx.ob("format_offset: '-' exactly for negative offsets", set(signs) == {"-", "+"} and neg(signs["-"], True) and neg(signs["+"], False), at=fo, construct="offset sign format", msg="sign of the formatted offset changed")
     zret = [n for n in g.returns() if const_str(n.ast.value) == "Z"]
-    ctx.ob("format_offset: 'Z' exactly for offset 0", bool(zero) and bool(zret) and all(g.only_if(n.id, zero[0].id, True) for n in zret), at=fo, construct="Z for UTC", msg="UTC designator changed")
-    pz = [t for t in build_cfg(po.node).nodes if t.kind == "test" and "'Z'" in unparse(t.ast)]
-    ctx.ob("parse_offset: 'Z' is read as offset 0", bool(pz) and any(isinstance(n.ast.value, ast.Constant) and n.ast.value.value == 0 and build_cfg(po.node).only_if(n.id, pz[0].id, True)
-                                                                  for n in build_cfg(po.node).returns() if n.ast.value is not None), at=po, construct="Z parse", msg="Z no longer maps to offset 0")
+    ctx.ob("format_offset: 'Z' exactly for offset 0", bool(zret) and all(any(t == "_==0" and pol for t, pol, _ in control_deps(fo, n)) for n in zret), at=fo, construct="Z for UTC", msg="UTC designator changed")
+    zn = [n for n in dpo.specific("'Z'") if n.kind == "stmt" and isinstance(n.ast, ast.Return)] if "'Z'" in dpo.keys else []
+    ctx.ob("parse_offset: 'Z' is read as offset 0", bool(zn) and all(isinstance(n.ast.value, ast.Constant) and n.ast.value.value == 0 for n in zn), at=po, construct="Z parse", msg="Z no longer maps to offset 0")
     # conversions to/from the standard library keep the instant: fractional_second <-> microsecond factor 1000 on both sides
     for cq in ("XmlDateTime", "XmlTime"):
         ci = ctx.repo.cls(f"{DT}:{cq}")
+        def mentions(fn, *, attrs=(), consts=(), calls=(), ops=()):
+            if fn is None:
+                return False
+            nodes = list(ast.walk(fn.node))
+            return all(any(isinstance(x, ast.Attribute) and x.attr == a for x in nodes) for a in attrs) and all(any(isinstance(x, ast.Constant) and x.value == c for x in nodes) for c in consts) \
+                and all(any(isinstance(x, ast.Call) and call_name_of(x) == c for x in nodes) for c in calls) and all(any(isinstance(x, (ast.BinOp, ast.AugAssign)) and isinstance(x.op, o) for x in nodes) for o in ops)
+
         micro = ci.methods.get("microsecond")
-        ok1 = micro is not None and "self.fractional_second // 1000" in unparse(micro.node)
+        ok1 = mentions(micro, attrs=("fractional_second",), consts=(1000,), ops=(ast.FloorDiv,))
         frm = ci.methods.get("from_datetime") or ci.methods.get("from_time")
-        ok2 = frm is not None and "obj.microsecond * 1000" in unparse(frm.node) and "calculate_offset(obj)" in unparse(frm.node)
+        ok2 = mentions(frm, attrs=("microsecond",), consts=(1000,), ops=(ast.Mult,), calls=("calculate_offset",))
         to = ci.methods.get("to_datetime") or ci.methods.get("to_time")
-        ok3 = to is not None and "tzinfo=calculate_timezone(self.offset)" in unparse(to.node) and "self.microsecond" in unparse(to.node)
+        ok3 = mentions(to, attrs=("microsecond", "offset"), calls=("calculate_timezone",))
         ctx.ob(f"{cq}: microsecond = fractional_second // 1000 and from_* multiplies by 1000; offset carried both ways", ok1 and ok2 and ok3, at=micro or frm,
                construct=f"{cq} stdlib conversion", msg="conversion to/from datetime loses the fraction or the offset")
     co = ctx.repo.func(f"{DATES}:calculate_offset")
     ct = ctx.repo.func(f"{DATES}:calculate_timezone")
-    ctx.ob("calculate_offset / calculate_timezone use minutes on both sides", "total_seconds() // 60" in unparse(co.node) and "timedelta(minutes=offset)" in unparse(ct.node),
+    ok = any(isinstance(x, ast.Call) and call_name_of(x) == "total_seconds" for x in ast.walk(co.node)) and any(isinstance(x, ast.BinOp) and isinstance(x.op, ast.FloorDiv) and isinstance(x.right, ast.Constant) and x.right.value == 60 for x in ast.walk(co.node)) \
+        and any(isinstance(x, ast.Call) and call_name_of(x) == "timedelta" and [k.arg for k in x.keywords] == ["minutes"] and not x.args for x in ast.walk(ct.node))
+    ctx.ob("calculate_offset / calculate_timezone use minutes on both sides", ok,
            at=co, construct="offset units", msg="offset units differ between the two conversions")
 
 
